@@ -131,8 +131,10 @@ def run(vc):
         name="table-level re-representations on one fixed network",
         bound="one 6-bus 20 kV feeder with an energised spur to an out-of-service bus: out-of-service line as first / last row, reversed line "
               "table, permuted load and bus tables, a load split in two, a load moved to a fused bus, zero-power / out-of-service elements added; "
-              "bus voltages and slack power against the reference representation",
-        script="from replaylib.representations import main_tables\nmain_tables()\n"))
+              "bus voltages and slack power against the reference representation; calculate_voltage_angles='auto' on a 110 kV feeder with a Dy5 "
+              "transformer: swapped line ends, high-voltage buses as first rows",
+        script="from replaylib.representations import main_tables\nmain_tables()\n",
+        known={"C05/auto-voltage-angles-depend-on-line-orientation": r"calculate_voltage_angles='auto': with the second 110 kV line entered with swapped ends"}))
 
 
 def classify(ob, model):
